@@ -212,13 +212,13 @@ CLAIMS["C02"] = dict(
 
 CLAIMS["C03"] = dict(
     level="other",
-    technique="static analysis: typestate of shadow string pointers (flip -> possibly away, copy_back -> home) at every hand-over to an in-place sorter, callee shadow-awareness computed from the callee's own body; path tables of every bucket dispatch with linear evaluation of rs.pos / depth / stack-size expressions; CFG post-dominance in the step constructors; prefix-sum kind vs use; call-graph acyclicity of the memory fall-backs; lower-bound analysis of LCP fill loops; twin agreement of the duplicated LCP insertion step; forwarding tables of the 20 public overloads",
+    technique="static analysis: typestate of shadow string pointers (flip -> possibly away, copy_back -> home) at every hand-over to an in-place sorter, callee shadow-awareness computed from the callee's own body; path tables of every bucket dispatch with linear evaluation of rs.pos / depth / stack-size expressions; CFG post-dominance in the step constructors; prefix-sum kind vs use; call-graph acyclicity of the memory fall-backs; forward interval analysis (branch refinement, threshold widening) of the indices of fixed-size bucket arrays; lower-bound analysis of LCP fill loops; twin agreement of the duplicated LCP insertion step; forwarding tables of the 20 public overloads",
     text=("Sorted-permutation and exact LCP values are value-level and NOT decided. Decided necessary conditions over all 10 pointer/set instantiations of the five radix loops, "
           "the step constructors, multikey quicksort, insertion sort and the public overloads: HOME-BEFORE-INPLACE, BUCKET-DISPOSED (each non-empty bucket handed on exactly once as "
           "[pos, +bkt_size), position advanced once), DEPTH-ADVANCE (depth + k*stack size for the k-byte radix, final-bucket LCP run), BUCKET-RANGE, STEP-BUCKET0, PREFIX-SUM-USE, "
-          "FALLBACK-FORWARD, FALLBACK-DAG, KEY-PACK-TABLE, CHAR-UNSIGNED, LCP-SLOT0, INSSORT-TWINS, ENTRY-FORWARD."),
+          "BKT-INDEX-BOUND, FALLBACK-FORWARD, FALLBACK-DAG, KEY-PACK-TABLE, CHAR-UNSIGNED, LCP-SLOT0, INSSORT-TWINS, ENTRY-FORWARD."),
     note=(TRUST + "Thin by nature: the property itself (output order, permutation, LCP values) depends on string contents. CharStringSet (signed char) is not reachable from the public API and not analysed. "
-          "Observation outside the property: the LCP boundary loops of RadixStep_CE0/CE2/CI2 read bkt_size[256] when every string of a step ends at the current depth (one past the array; the value is not used)."),
+          "BKT-INDEX-BOUND (forward interval analysis of the index variables of the fixed-size bucket arrays) found a one-past-the-end read in the LCP boundary loops of RadixStep_CE0/CE2/CI2 (fixed in /repo, 8c2799d)."),
 )
 
 NOT_APPLICABLE = {}
